@@ -83,22 +83,48 @@ func ruleC01_1(c *Ctx) {
 	if drawFn == nil || flushFn == nil {
 		return
 	}
-	// the letter table: read from the package's initialised memory
+	// the letter table: read from the package's initialised memory, or - when the table has been turned into a
+	// function - obtained by evaluating that function on the constant letter
 	tblG := c.P.Global("encode", "drawOps")
-	if tblG == nil {
-		R.Anchor("encode.drawOps")
+	in0 := c.Interp()
+	var tblObj *sym.Object
+	var rowFn *ssa.Function
+	var rowT *types.Struct
+	fieldsOK := func(st *types.Struct) bool {
+		have := map[string]bool{}
+		for i := 0; i < st.NumFields(); i++ {
+			have[st.Field(i).Name()] = true
+		}
+		return have["opcodeBase"] && have["maxRepCount"] && have["nArgs"]
+	}
+	if tblG != nil {
+		tblObj = in0.GlobalObj(tblG)
+		if arr, ok := tblG.Type().(*types.Pointer).Elem().Underlying().(*types.Array); ok {
+			rowT, _ = arr.Elem().Underlying().(*types.Struct)
+		}
+	} else {
+		for _, g := range c.P.AllFuncs() {
+			if g.Pkg == nil || c.P.Rel(g.Pkg.Pkg) != "encode" || g.Blocks == nil || g.Parent() != nil || g.Signature.Recv() != nil {
+				continue
+			}
+			sig := g.Signature
+			if sig.Params().Len() != 1 || sig.Results().Len() != 1 {
+				continue
+			}
+			if b, ok := sig.Params().At(0).Type().Underlying().(*types.Basic); !ok || b.Kind() != types.Uint8 {
+				continue
+			}
+			if st, ok := sig.Results().At(0).Type().Underlying().(*types.Struct); ok && fieldsOK(st) {
+				rowFn, rowT = g, st
+			}
+		}
+	}
+	if rowT == nil || !fieldsOK(rowT) || (tblG == nil && rowFn == nil) {
+		R.Anchor("encode.drawOps (the per-letter table of opcode base, repeat limit and argument count, as a table or a function)")
 		return
 	}
-	in0 := c.Interp()
-	tblObj := in0.GlobalObj(tblG)
 	row := func(letter int64) (base, maxRep, nArgs int64, ok bool) {
-		get := func(f int) (int64, bool) {
-			return in0.LoadAt(in0.Global, tblObj, sym.Path{sym.I(letter), sym.F(f)}).Int64()
-		}
-		st, isSt := tblG.Type().(*types.Pointer).Elem().Underlying().(*types.Array).Elem().Underlying().(*types.Struct)
-		if !isSt {
-			return
-		}
+		st := rowT
 		fi := func(name string) int {
 			for i := 0; i < st.NumFields(); i++ {
 				if st.Field(i).Name() == name {
@@ -106,6 +132,27 @@ func ruleC01_1(c *Ctx) {
 				}
 			}
 			return -1
+		}
+		var get func(f int) (int64, bool)
+		if tblObj != nil {
+			get = func(f int) (int64, bool) {
+				return in0.LoadAt(in0.Global, tblObj, sym.Path{sym.I(letter), sym.F(f)}).Int64()
+			}
+		} else {
+			inR := c.Interp()
+			res, _, _ := inR.Run(rowFn, []*sym.Term{sym.Const(sym.Int(letter).C, u8t)}, nil)
+			get = func(f int) (int64, bool) {
+				if res == nil || f < 0 {
+					return 0, false
+				}
+				if res.Op == "agg" && f < len(res.Args) {
+					return res.Args[f].Int64()
+				}
+				if res.Op == "zero" {
+					return 0, true
+				}
+				return sym.Field(res, f, st.Field(f).Type()).Int64()
+			}
 		}
 		var o1, o2, o3 bool
 		base, o1 = get(fi("opcodeBase"))
